@@ -33,7 +33,16 @@ var (
 	certID   = []byte{0}
 	otherID  = []byte{7, 7}
 	sigCache = map[string][]byte{}
+	curID    = certID // the id certified by the op being executed
 )
+
+// other returns the id that is NOT being certified (a signature over it is a wrong-id signature)
+func other(id []byte) []byte {
+	if string(id) == string(certID) {
+		return otherID
+	}
+	return certID
+}
 
 func acct(i int) *xvlib.Account {
 	for len(accts) <= i {
@@ -69,16 +78,23 @@ func mkEntry(tok string) (*bftpb.QuorumCertSign, int, byte, error) {
 	e := &bftpb.QuorumCertSign{Address: acct(a).Address, PublicKey: acct(a).PubJSON}
 	switch kind {
 	case 'v':
-		e.Sign = sign(a, certID)
+		e.Sign = sign(a, curID)
+	case 'r':
+		// a fresh (different) valid signature of the same member over the certified id: ECDSA signing is randomised
+		sg, err := xvlib.Crypto().SignECDSA(acct(a).Pri, curID)
+		if err != nil {
+			return nil, 0, 0, err
+		}
+		e.Sign = sg
 	case 'w':
-		e.Sign = sign(a, otherID)
+		e.Sign = sign(a, other(curID))
 	case 'c':
-		s := append([]byte{}, sign(a, certID)...)
+		s := append([]byte{}, sign(a, curID)...)
 		s[len(s)/2] ^= 0x20
 		e.Sign = s
 	case 'm':
 		e.PublicKey = acct(outsider).PubJSON
-		e.Sign = sign(outsider, certID)
+		e.Sign = sign(outsider, curID)
 	default:
 		return nil, 0, 0, fmt.Errorf("bad kind %q", tok)
 	}
@@ -91,6 +107,10 @@ func newRules() *bft.DefaultSaftyRules {
 		LedgerCommitInfo: &bft.LedgerCommitInfo{CommitStateId: certID},
 	}
 	root := &bft.ProposalNode{In: initQC}
+	// a second stored proposal (id otherID) so that certificates over either id refer to a node of the local tree
+	root.Sons = append(root.Sons, &bft.ProposalNode{In: &bft.QuorumCert{
+		VoteInfo:         &bft.VoteInfo{ProposalId: otherID, ProposalView: 0, ParentId: certID, ParentView: 0},
+		LedgerCommitInfo: &bft.LedgerCommitInfo{CommitStateId: otherID}}})
 	tree := &bft.QCPendingTree{Genesis: root, Root: root, HighQC: root, CommitQC: root,
 		OrphanList: list.New(), OrphanMap: map[string]bool{}, Log: xvlib.Logger("qctree")}
 	a := acct(0)
@@ -102,7 +122,22 @@ func quorum(n int) int { return n - (n-1)/3 - 1 }
 
 // exec runs one op line against the real code; returns the canonical answer.
 // For cp it also evaluates the property oracle.
+var prevLine string
+
+// replayOps: a wrong-id case right after a `cpy` line replays with that line (the same instance verified those votes first)
+func replayOps(line string) []string {
+	if strings.HasPrefix(prevLine, "cpy ") && line != prevLine {
+		return []string{prevLine, line}
+	}
+	return []string{line}
+}
+
 func exec(line string, out *xvlib.Out) string {
+	defer func() {
+		if out != nil && !strings.HasPrefix(line, "cv ") {
+			prevLine = line
+		}
+	}()
 	w := strings.Fields(line)
 	if len(w) == 0 {
 		return "bad-op"
@@ -116,7 +151,12 @@ func exec(line string, out *xvlib.Out) string {
 		p, _ := strconv.ParseInt(w[1], 10, 64)
 		l, _ := strconv.ParseInt(w[2], 10, 64)
 		return strconv.FormatBool(rules.CheckPacemaker(p, l))
-	case "cp":
+	case "cp", "cpy":
+		curID = certID
+		if w[0] == "cpy" {
+			curID = otherID
+		}
+		defer func() { curID = certID }()
 		n, _ := strconv.Atoi(w[1])
 		col, _ := strconv.Atoi(w[2])
 		vals := make([]string, n)
@@ -135,7 +175,7 @@ func exec(line string, out *xvlib.Out) string {
 			}
 			signs = append(signs, e)
 			kinds[kind]++
-			if kind == 'v' && a < n {
+			if (kind == 'v' || kind == 'r') && a < n {
 				multi[a]++
 				if a == col {
 					colValid = true
@@ -143,13 +183,13 @@ func exec(line string, out *xvlib.Out) string {
 					others[a] = true
 				}
 			}
-			if kind == 'v' && a >= n {
+			if (kind == 'v' || kind == 'r') && a >= n {
 				kinds['o']++
 			}
 		}
-		parent := &bft.QuorumCert{VoteInfo: &bft.VoteInfo{ProposalId: certID, ProposalView: 0},
-			LedgerCommitInfo: &bft.LedgerCommitInfo{CommitStateId: certID}, SignInfos: signs}
-		proposal := &bft.QuorumCert{VoteInfo: &bft.VoteInfo{ProposalId: []byte{2}, ProposalView: 1, ParentId: certID, ParentView: 0},
+		parent := &bft.QuorumCert{VoteInfo: &bft.VoteInfo{ProposalId: curID, ProposalView: 0},
+			LedgerCommitInfo: &bft.LedgerCommitInfo{CommitStateId: curID}, SignInfos: signs}
+		proposal := &bft.QuorumCert{VoteInfo: &bft.VoteInfo{ProposalId: []byte{2}, ProposalView: 1, ParentId: curID, ParentView: 0},
 			SignInfos: []*bftpb.QuorumCertSign{{Address: acct(col).Address, PublicKey: acct(col).PubJSON, Sign: sign(col, []byte{2})}}}
 		err := rules.CheckProposal(proposal, parent, vals)
 		res := "reject"
@@ -181,7 +221,7 @@ func exec(line string, out *xvlib.Out) string {
 			}
 			out.Violate(xvlib.Violation{Key: key,
 				What: fmt.Sprintf("CheckProposal accepted a certificate with %d distinct valid members besides the collector; %d required (n=%d)", len(others), quorum(n), n),
-				Ops:  []string{line}, Impl: []string{res}})
+				Ops:  replayOps(line), Impl: []string{res}})
 		}
 		return res
 	case "cv":
@@ -198,7 +238,7 @@ func exec(line string, out *xvlib.Out) string {
 				return "bad-op"
 			}
 			if i == 0 {
-				okFirst = kind == 'v' && a < n
+				okFirst = (kind == 'v' || kind == 'r') && a < n
 			}
 			signs = append(signs, e)
 		}
@@ -211,7 +251,7 @@ func exec(line string, out *xvlib.Out) string {
 		}
 		if out != nil && err == nil && !okFirst {
 			out.Violate(xvlib.Violation{Key: "vote-accepted-invalid", What: "CheckVote accepted a vote whose signer is not a member with a valid signature over the proposal id",
-				Ops: []string{line}, Impl: []string{res}})
+				Ops: replayOps(line), Impl: []string{res}})
 		}
 		return res
 	}
@@ -224,6 +264,9 @@ func alphabet(n int) []string {
 		a = append(a, fmt.Sprintf("%dv", i))
 	}
 	a = append(a, fmt.Sprintf("%dv", n), fmt.Sprintf("%dv", n+1))
+	for i := 0; i < 2 && i < n; i++ {
+		a = append(a, fmt.Sprintf("%dr", i)) // the same member again with a different valid signature
+	}
 	for i := 0; i < 2 && i < n; i++ {
 		a = append(a, fmt.Sprintf("%dw", i), fmt.Sprintf("%dc", i), fmt.Sprintf("%dm", i))
 	}
@@ -321,6 +364,28 @@ func main() {
 		}
 		col := rng.Intn(n)
 		line := strings.TrimSpace(fmt.Sprintf("cp %d %d %s", n, col, strings.Join(es, " ")))
+		if i%5 == 0 {
+			// replay across ids on the same instance: genuine votes for the other id are verified first (cpy, accepted
+			// or not), then the very same entries are presented for this id (there they are wrong-id signatures)
+			var ys, ws []string
+			for j := 0; j < n && j < quorum(n)+2; j++ {
+				ys = append(ys, fmt.Sprintf("%dv", j))
+				ws = append(ws, fmt.Sprintf("%dw", j))
+			}
+			run(strings.TrimSpace(fmt.Sprintf("cpy %d %d %s", n, col, strings.Join(ys, " "))), true)
+			run(strings.TrimSpace(fmt.Sprintf("cp %d %d %s", n, col, strings.Join(ws, " "))), true)
+			if n > 1 {
+				run(strings.TrimSpace(fmt.Sprintf("cv %d %dw", n, 1)), true)
+			}
+		}
+		if rng.Chance(1, 3) && len(es) > 0 {
+			// a member votes twice with different signature bytes
+			k := rng.Intn(len(es))
+			if strings.HasSuffix(es[k], "v") {
+				es2 := append(append([]string{}, es...), strings.TrimSuffix(es[k], "v")+"r")
+				run(strings.TrimSpace(fmt.Sprintf("cp %d %d %s", n, col, strings.Join(es2, " "))), true)
+			}
+		}
 		run(line, true)
 		if i < 3 {
 			out.Sample(map[string]string{"op": line, "impl": exec(line, nil)})
